@@ -25,6 +25,9 @@ static void xc_havoc_ghosts(void) { size_t a; double d; g_k = a; g_v = d; }
 #define IN_BUCKET(LT, p, i, v) (((i) == 0 || LT((p).boundaries_.data[(i) - 1], v)) && \
     ((i) == (p).boundaries_.len || __CPROVER_isnand((p).boundaries_.data[i]) /* NaN boundaries are outside the statement */ || !LT((p).boundaries_.data[i], v)))
 #define CLAMP(k, n) ((k) * ((k) < (n)))
+/* equality of doubles that also accepts NaN == NaN (inf + -inf) */
+#define FEQ(a, b) ((a) == (b) || (__CPROVER_isnand(a) && __CPROVER_isnand(b)))
+#define IEQ(a, b) ((a) == (b))
 #define MIN_(a, b) ((b) < (a) ? (b) : (a))
 #define MAX_(a, b) ((a) < (b) ? (b) : (a))
 """
@@ -113,14 +116,14 @@ def aggregate_contract(kind, extra_req=""):
     LT = "LT_CONV" if i64 else "LT_D_D"
     no_ovf = ("__CPROVER_requires((value >= 0 ? %(P)s.sum_.u.i <= INT64_MAX - value : %(P)s.sum_.u.i >= INT64_MIN - value))\n" % {"P": P}) if i64 \
         else "__CPROVER_requires(!__CPROVER_isnand(value) && !__CPROVER_isnand(%s.sum_.u.d) && !__CPROVER_isnand(%s.min_.u.d) && !__CPROVER_isnand(%s.max_.u.d))\n" % (P, P, P)
-    d = {"P": P, "tag": tag, "f": fld, "LT": LT}
+    d = {"P": P, "tag": tag, "f": fld, "LT": LT, "EQ": "IEQ" if i64 else "FEQ"}
     return {
         "ghost": {("after_decl", "index"): "g_idx = index;"},
         "pre": ("__CPROVER_requires(__CPROVER_is_fresh(self, sizeof(*self)) && WF_HIST(%(P)s))\n"
                 "__CPROVER_requires(%(P)s.sum_.tag == %(tag)s && %(P)s.min_.tag == %(tag)s && %(P)s.max_.tag == %(tag)s)\n" % d) + no_ovf + extra_req +
         ("__CPROVER_assigns(g_idx, %(P)s.count_, %(P)s.sum_, %(P)s.min_, %(P)s.max_, __CPROVER_object_whole(%(P)s.counts_.data))\n"
          "__CPROVER_ensures(%(P)s.count_ == __CPROVER_old(%(P)s.count_) + 1)\n"
-         "__CPROVER_ensures(%(P)s.sum_.tag == %(tag)s && %(P)s.sum_.%(f)s == __CPROVER_old(%(P)s.sum_.%(f)s) + value)\n"
+         "__CPROVER_ensures(%(P)s.sum_.tag == %(tag)s && %(EQ)s(%(P)s.sum_.%(f)s, __CPROVER_old(%(P)s.sum_.%(f)s) + value))\n"
          "__CPROVER_ensures(self->record_min_max_ ==> (%(P)s.min_.tag == %(tag)s && %(P)s.max_.tag == %(tag)s && "
          "%(P)s.min_.%(f)s == MIN_(__CPROVER_old(%(P)s.min_.%(f)s), value) && %(P)s.max_.%(f)s == MAX_(__CPROVER_old(%(P)s.max_.%(f)s), value)))\n"
          "__CPROVER_ensures(!self->record_min_max_ ==> (%(P)s.min_.%(f)s == __CPROVER_old(%(P)s.min_.%(f)s) && %(P)s.max_.%(f)s == __CPROVER_old(%(P)s.max_.%(f)s)))\n"
@@ -160,7 +163,7 @@ def merge_contract(kind):
     ovf = ("__CPROVER_requires((delta->sum_.u.i >= 0 ? current->sum_.u.i <= INT64_MAX - delta->sum_.u.i : current->sum_.u.i >= INT64_MIN - delta->sum_.u.i))\n" if i64 else
            "__CPROVER_requires(!__CPROVER_isnand(current->sum_.u.d) && !__CPROVER_isnand(delta->sum_.u.d) && !__CPROVER_isnand(current->min_.u.d) && "
            "!__CPROVER_isnand(delta->min_.u.d) && !__CPROVER_isnand(current->max_.u.d) && !__CPROVER_isnand(delta->max_.u.d))\n")
-    d = {"tag": tag, "f": f}
+    d = {"tag": tag, "f": f, "EQ": "IEQ" if i64 else "FEQ"}
     return {"pre":
         "__CPROVER_requires(__CPROVER_is_fresh(current, sizeof(*current)) && __CPROVER_is_fresh(delta, sizeof(*delta)) && __CPROVER_is_fresh(merge, sizeof(*merge)))\n"
         "__CPROVER_requires(WF_HIST(*current) && WF_HIST(*delta) && WF_HIST(*merge) && delta->counts_.len == current->counts_.len && merge->counts_.len == current->counts_.len)\n"
@@ -169,7 +172,7 @@ def merge_contract(kind):
         # merging two intervals = recording all values into one histogram: counts and count add, sum adds, min/max combine
         "__CPROVER_ensures(g_k < current->counts_.len ==> merge->counts_.data[g_k] == current->counts_.data[g_k] + delta->counts_.data[g_k])\n"
         "__CPROVER_ensures(merge->count_ == current->count_ + delta->count_)\n"
-        "__CPROVER_ensures(merge->sum_.tag == %(tag)s && merge->sum_.%(f)s == current->sum_.%(f)s + delta->sum_.%(f)s)\n"
+        "__CPROVER_ensures(merge->sum_.tag == %(tag)s && %(EQ)s(merge->sum_.%(f)s, current->sum_.%(f)s + delta->sum_.%(f)s))\n"
         "__CPROVER_ensures(merge->record_min_max_ == (current->record_min_max_ && delta->record_min_max_))\n"
         "__CPROVER_ensures(merge->record_min_max_ ==> (merge->min_.tag == %(tag)s && merge->max_.tag == %(tag)s && "
         "merge->min_.%(f)s == MIN_(current->min_.%(f)s, delta->min_.%(f)s) && merge->max_.%(f)s == MAX_(current->max_.%(f)s, delta->max_.%(f)s)))\n"
@@ -279,3 +282,37 @@ assumptions = (
 not_covered = ("LongHistogramAggregation::Merge/Diff wrappers (unique_ptr/new plumbing around HistogramMerge/HistogramDiff)",
                "TemporalMetricStorage / SyncMetricStorage plumbing that decides which points are merged",
                "HistogramDiff does not compute sum_ (observed; Diff is outside the statement)")
+
+
+DRIVER = ("c07_native", ["c07_native.cc"], ["sdk/src/metrics/aggregation/histogram_aggregation.cc"])
+
+
+def _bits(vals, name):
+    for k, v in vals.items():
+        if k == name + "#bin" or k.endswith("::" + name + "#bin"):
+            return int(v, 2)
+    return None
+
+
+def refute_ctor(mod, proof, violations, ix, workdir, seed):
+    vals = R.leaf_trace(workdir, proof.name, violations[0]["obligation"]) or {}
+    b = _bits(vals, "g_v")
+    if b is None:
+        b = 0
+    r = R.native_check(DRIVER[0], DRIVER[1], ["double_sentinels", "0x%016x" % b], repo_sources=DRIVER[2])
+    r["input"] = {"recorded_value_bits": "0x%016x" % b}
+    return r
+
+
+def refute_lemma(mod, proof, violations, ix, workdir, seed):
+    vals = R.leaf_trace(workdir, proof.name, violations[0]["obligation"]) or {}
+    b = _bits(vals, "cex_b")
+    v = R.to_int(vals.get("cex_v"))
+    if b is None or v is None:
+        return None
+    r = R.native_check(DRIVER[0], DRIVER[1], ["long_bucket", "0x%016x" % b, v], repo_sources=DRIVER[2])
+    r["input"] = {"boundary_bits": "0x%016x" % b, "value": v}
+    return r
+
+
+refuters = {"DoubleHist_ctor": refute_ctor, "Lemma_long_compare_exact_full": refute_lemma, "Lemma_long_compare_exact_53": refute_lemma}
